@@ -5,6 +5,38 @@ ROOT = os.path.dirname(os.path.dirname(os.path.abspath(__file__)))
 ALL = ["C%02d" % i for i in range(1, 21)]
 
 CHECKS = {
+ "C13": dict(
+    category="model_checking",
+    text="TLC checks liveness of the loops that could fail to return: the read-loop variant of lha_input_stream_skip (one action "
+         "per iteration, source full / short / at end of input: every skip terminates - and the unrepaired loop violates this, a "
+         "vacuity guard), the lead-in scan (terminates for every prefix and chunking), and lha_decoder_read's refill loop. The "
+         "implementation is then run on truncations of corpus and generated archives at sampled (thorough: every) offsets, "
+         "structurally generated archives with extreme length fields (level-3 header length up to 2^32-1 and around the 1 MiB cap, "
+         "level-3 extended sizes, level-1 chains of 3000 extended headers, chains promising absent data, 4 GiB member sizes, "
+         "decoders that never run dry with 4 GiB declared) and mutated archives, through all five stream kinds, under a "
+         "deterministic step budget; every call's result is validated against Reader.tla and the trace spec evaluates on every "
+         "call: callback calls <= 2*len+64*ops+256, bytes requested <= 3*len+out+(1MiB+8K)*ops+64K, peak heap <= 8 MiB+2*len.",
+    design_ref="DESIGN.md section 5, C13",
+    note="Work is measured in source callback calls/bytes for callback streams; FILE/pipe streams are covered by termination only. "
+         "Found and fixed: endless loop in lha_input_stream_skip (known_findings.json).",
+    technique="TLC liveness checking of the loop models (InputStream, DecoderApi); trace validation of work/heap counters and results "
+              "against the Reader TLA+ spec on truncated / extreme inputs"),
+ "C16": dict(
+    category="model_checking",
+    text="InputStream.tla defines the lead-in scan at the real constants (24-byte buffer, 12-byte look-ahead, 256 KiB limit, "
+         "both self-extractor markers, decoy skipping, -pms- exclusion), lead-in replay and the four skip variants. TLC checks "
+         "that for all prefix lengths 0..80 and all stub+marker+stub+decoy+stub forms (thorough: also arbitrary short reads) the "
+         "stream ends positioned on the first byte of the real header. Binding: (1) lha_input_stream_read/_skip are driven "
+         "directly over prefixes of every length 0..64, k*24+-1 up to 1 KiB, near 255/256 KiB, decoy forms and the corpus' real "
+         "self-extractors, through callbacks (every request size and order must be the model's), seekable FILE and pipe; "
+         "(2) Reader level: for corpus, generated and truncated archives, with and without clean or decoy prefixes, the calls made "
+         "through path/FILE/pipe/callback/callback-without-skip streams must all yield the members of the reference run and "
+         "be accepted by Reader.tla.",
+    design_ref="DESIGN.md section 5, C16",
+    note="Caller callbacks are assumed to fill the buffer unless at end of input. Reader-level ground truth is relative (reference run "
+         "over a seekable file); the scan itself is validated absolutely against the spec on the raw bytes.",
+    technique="TLA+ spec (InputStream) model-checked with TLC at the real constants; trace validation of lha_input_stream_* request "
+              "sequences and of Reader-level executions across stream kinds and prefixes"),
  "C15": dict(
     category="model_checking",
     text="Reader.tla models lha_reader_* over lha_basic_reader_* (one action per public call; directory stack, deferred "
